@@ -380,8 +380,19 @@ def run(ctx):
             r6.violation("data:%s" % fname, "bundled %s contains NUL" % fname, None)
         else:
             r6.ok("data:%s" % fname, "no NUL")
+    # user auto-correct values are the one user-file text that is shown: the filter they pass must reject NUL
+    from . import phonetic as _ph
+    fck, ftt = _ph.autocorrect_filter(prog)
+    if ftt is None:
+        r6.undecidable("user-autocorrect", "the filter user auto-correct values pass could not be summarised")
+    elif any(kept for (asc, nul), kept in ftt.items() if nul):
+        r6.violation("user-autocorrect", "a user auto-correct value containing NUL passes the look-up's filter (NUL is ASCII): the candidate handed to from_vec_unchecked has an "
+                     "interior NUL — the C string is cut short, differs from the Rust value, and riti_string_free rebuilds the CString with the wrong length",
+                     common.fn_line(prog, fck))
+    else:
+        r6.ok("user-autocorrect", "user auto-correct values with a NUL are rejected before use")
     r6.assume("layout files supplied at run time contain no NUL in their key values")
-    r6.floor(5, "key table + 4 data files")
+    r6.floor(6, "key table + 4 data files + user auto-correct filter")
 
 
 CONV_SUFFIXES = ("::clone", "::into", "::into_bytes", "::to_owned", "::to_string", "::to_vec", "::as_bytes", "::as_str", "::from", "::deref", "::as_ref",
